@@ -37,6 +37,24 @@ CHECKS = {
                      "component: handler designation, exactly-once observers in order, short-circuiting and the final response "
                      "must match the reference interpreter.",
                 ref="§4 C06"),
+    "C07": dict(engine="e2e", cat="exploration", tech="bounded-exhaustive route-table enumeration through the real pavexc, rustc and generated server vs reference router",
+                text="All route tables of <=2 (quick) / <=3 (thorough) routes over a path x method-guard alphabet x nesting structure x fallback placement "
+                     "x domain guards; every accepted table is served and probed with every request of the request alphabet (paths of <=3 segments, "
+                     "4 methods, 6 Host values); the component that logged each request and the AllowedMethods / Allow header must be the ones a "
+                     "reference router written from the documentation designates.",
+                ref="§4 C07 (plug-in engines/e2e/fam_route.py)"),
+    "C08": dict(engine="e2e", cat="exploration", tech="bounded-exhaustive single-violation planting into accepted base blueprints, real pavexc verdict",
+                text="Each of the documented compile-time rules is planted, alone, at every applicable position (level, consumer kind, graph depth) of a "
+                     "greedy cover of accepted base blueprints (flat, nested once, nested twice); pavexc must exit non-zero with an error diagnostic "
+                     "and write no SDK. Thorough adds all pairs of plants on 6 bases.",
+                ref="§4 C08 (plug-in engines/e2e/fam_plant.py)"),
+    "C10": dict(engine="e2e", cat="exploration", tech="exhaustive history enumeration x bounded deterministic hash-seed/thread sweep (getrandom interposer + ASLR off) on the real pavexc",
+                text="All histories of length <=2 (quick) / <=3 (thorough) over {generate P/Q/Q', wipe cache, --check, --check --diagnostics, edit+--check, "
+                     "delete outputs} and a sweep of hash seeds x rayon pool sizes over programs chosen to populate every hash-keyed table: output bytes "
+                     "identical across all runs, no file touched by a no-op regenerate, --check exit status exact and side-effect free.",
+                ref="§4 C10 (plug-in engines/e2e/fam_c10.py)",
+                note="The seed dimension is a bounded deterministic sweep (4/32 of 2^128 seeds x 2 pool sizes; rayon interleavings not controlled): "
+                     "evidence says exhaustive:false for it; the history dimension is exhaustive within its bound."),
     "C09": dict(engine="e2e", cat="exploration", tech="bounded-exhaustive blueprint enumeration, verdict + atomicity on every compiler run",
                 text="Every pavexc invocation made for the enumerated families (valid and rule-breaking): terminates, exit 0/1, "
                      "error diagnostic iff failure, no panic, and a failing run leaves the SDK already on disk byte-identical.",
@@ -102,9 +120,6 @@ CHECKS = {
 }
 
 NOT_YET = {
-    "C07": "ROUTE family of the e2e engine not built yet in this round",
-    "C08": "PLANT family of the e2e engine not built yet in this round",
-    "C10": "seed/history sweep not built yet in this round",
 }
 
 
